@@ -292,7 +292,52 @@ def prop_sentinel(ctx, case):
     ctx.note([name, slot, value], nontrivial=True, classes=['sentinel:%#x' % value])
 
 
-PROPS = {'decoder': prop_decoder, 'sentinel': prop_sentinel}
+class fresh_package:
+    """a second, freshly imported copy of the package under test (its module-level state - memo tables, caches - is that of
+    a new interpreter); the copy in use is put back on exit"""
+    def __enter__(self):
+        import sys
+        self.saved = {k: v for k, v in sys.modules.items() if k == 'pykdebugparser' or k.startswith('pykdebugparser.')}
+        for k in self.saved:
+            del sys.modules[k]
+        return self
+
+    def __exit__(self, *exc):
+        import sys
+        for k in [k for k in sys.modules if k == 'pykdebugparser' or k.startswith('pykdebugparser.')]:
+            del sys.modules[k]
+        sys.modules.update(self.saved)
+        return False
+
+
+def prop_history(ctx, case):
+    """the call part is a function of the START arguments: a call rendered after other calls of the same decoder (same
+    words except for one field of one word) reads as it does in a fresh interpreter that renders it alone"""
+    name, seed, slot, mask = case['name'], case['seed'], case['slot'], case['mask']
+    dw = distinct_words(name, seed)
+    if dw is None:
+        return
+    a, e = dw
+    dw2 = distinct_words(name, seed + 99991)
+    if dw2 is None:
+        return
+    b = list(a)
+    b[slot] = (a[slot] & mask) | (dw2[0][slot] & ~mask)       # the `mask` bits of the first call, the rest from another in-domain word
+    db = domains.project(name, 1, b)
+    # (an ioctl request is a product of independent fields - direction, length, group, number: any mix is in the domain)
+    if [int.from_bytes(db[8 * i:8 * i + 8], 'little') for i in range(4)] != b and not (name == 'BSC_ioctl' and slot == 1 and mask in (0xffff, 0xff, 0xff00, 0x1fffffff)):
+        return
+    first = guard(render, name, a, e)
+    second = guard(render, name, b, e)
+    with fresh_package():
+        alone = guard(render, name, b, e)
+    if second != alone:
+        raise Violation(f'history-dependent:{name}', f'{name}: START {b} rendered after START {a} reads {second!r}; the same call rendered alone '
+                                                     f'in a fresh copy of the package reads {alone!r}')
+    ctx.note([name, slot, mask], nontrivial=first != second, classes=['history', 'history:' + name if name == 'BSC_ioctl' else 'history:other'])
+
+
+PROPS = {'decoder': prop_decoder, 'sentinel': prop_sentinel, 'history': prop_history}
 
 
 def names():
@@ -324,3 +369,10 @@ def run(ctx):
     ctx.run_enum('sentinel', sent, prop_sentinel, exhaustive_label='every decoder x every START slot x special values (quick: AT_FDCWD, 0xffffffff and one of the ten others per slot, rotating with the seed)')
     strat = st.fixed_dictionaries({'name': st.sampled_from(names()), 'seed': st.integers(0, 2 ** 62), 'lookups': st.integers(0, 2)})
     ctx.run_given('decoder', strat, prop_decoder, ctx.n(500, 10000))
+    # history: one field of one START word changed between two calls of one decoder, second call compared with a fresh copy of
+    # the package (every mask for ioctl's request word in each run; other decoders rotate with the seed)
+    masks = [0xffff, 0xff, 0xff00, 0x1fffffff, 0xffffffff, 0xffffffff00000000, 0xffff0000, 0xfff, 1, 1 << 63]
+    hist = [{'name': 'BSC_ioctl', 'seed': base + 5 * k, 'slot': 1, 'mask': m} for k, m in enumerate(masks[:4] * 2)]
+    ns_ = names()
+    hist += [{'name': ns_[(base + 31 * k) % len(ns_)], 'seed': base + 7 * k, 'slot': k % 4, 'mask': masks[k % len(masks)]} for k in range(ctx.n(24, 400))]
+    ctx.run_enum('history', hist, prop_history, exhaustive_label=None)
